@@ -357,3 +357,38 @@ def helper_by_role(mi, user: FuncInfo, has_role) -> List[FuncInfo]:
         if related and has_role(fi):
             out.append(fi)
     return out
+
+
+def concat_parts(e):
+    """the pieces of a text built by `a + b + c` or by an f-string `f"{a}lit{c}"`, left to right: [expr | ast.Constant(str)], adjacent literals merged.
+    None when `e` is neither (or an f-string piece carries a conversion / format spec)."""
+    def flat(x):
+        if isinstance(x, ast.BinOp) and isinstance(x.op, ast.Add):
+            l_, r_ = flat(x.left), flat(x.right)
+            return None if l_ is None or r_ is None else l_ + r_
+        if isinstance(x, ast.JoinedStr):
+            out = []
+            for v in x.values:
+                if isinstance(v, ast.Constant):
+                    out.append(v)
+                elif isinstance(v, ast.FormattedValue) and v.format_spec is None and v.conversion in (-1, 115):
+                    out.append(v.value)
+                else:
+                    return None
+            return out
+        return [x]
+    if not (isinstance(e, ast.JoinedStr) or isinstance(e, ast.BinOp) and isinstance(e.op, ast.Add)):
+        return None
+    parts = flat(e)
+    if parts is None:
+        return None
+    out = []
+    for q in parts:
+        if isinstance(q, ast.Constant) and isinstance(q.value, str):
+            if q.value == "":
+                continue
+            if out and isinstance(out[-1], ast.Constant) and isinstance(out[-1].value, str):
+                out[-1] = ast.copy_location(ast.Constant(value=out[-1].value + q.value), out[-1])
+                continue
+        out.append(q)
+    return out
